@@ -57,12 +57,18 @@ def isNullishNode : ENode → Bool
   | .scalar v _ _ st _ _ => scalarIsNullish v st
   | _ => false
 
+/-- a scalar merge value that is YAML null: tagged `!!null`, or plain null-like text (`""`, `~`, `null`),
+and not forced to a string by `!!str` or the non-specific tag `!` -/
+def isNullMergeNode : ENode → Bool
+  | .scalar v tag _ st _ _ => (tag == tagNull || scalarIsNullish v st) && tag != tagString && tag != tagNonSpecific
+  | _ => false
+
 mutual
 /-- entries contributed by a merge value: a mapping gives its own fields in order followed by its own
 merge sources from last to first (recursively); a sequence gives its elements' contributions from last to
-first; a null-like scalar gives nothing; anything else is an error (`none`). No de-duplication here. -/
+first; a null scalar (`isNullMergeNode`) gives nothing; anything else is an error (`none`). No de-duplication here. -/
 def sourceEntries : ENode → Option (List (ENode × ENode))
-  | .scalar v _ _ st _ _ => if scalarIsNullish v st then some [] else none
+  | .scalar v tag rt st a l => if isNullMergeNode (.scalar v tag rt st a l) then some [] else none
   | .map _ _ _ entries => mapSourceEntries entries
   | .seq _ _ _ _ _ items => seqSourceEntries items
 /-- own fields first, then (accumulated) nested merge batches, newest batch first -/
